@@ -8,6 +8,7 @@ void scen_gp_live(void);
 void scen_callrcu(void);
 void scen_barrier(void);
 void scen_poll(void);
+void scen_defer(void);
 
 const struct usim_scenario usim_scenarios[] = {
 	{ "gp", "C01", scen_gp },
@@ -15,5 +16,6 @@ const struct usim_scenario usim_scenarios[] = {
 	{ "callrcu", "C03", scen_callrcu },
 	{ "barrier", "C04", scen_barrier },
 	{ "poll", "C14", scen_poll },
+	{ "defer", "C13", scen_defer },
 };
 const int usim_nscenarios = sizeof(usim_scenarios) / sizeof(usim_scenarios[0]);
